@@ -78,8 +78,22 @@ def run_C13(res, tier, seed, t_end):
 def deep_decode(r, enc='utf-8'):
     if isinstance(r, bytes):
         return r.decode(enc)
-    if isinstance(r, list):
+    if isinstance(r, (list, tuple)):
         return [deep_decode(x, enc) for x in r]
+    if isinstance(r, set):
+        return sorted(deep_decode(x, enc) for x in r)
+    if isinstance(r, dict):
+        return {deep_decode(k, enc): deep_decode(v, enc) for k, v in r.items()}
+    return r
+
+
+def plain(r):
+    if isinstance(r, (list, tuple)):
+        return [plain(x) for x in r]
+    if isinstance(r, set):
+        return sorted(plain(x) for x in r)
+    if isinstance(r, dict):
+        return {k: plain(v) for k, v in r.items()}
     return r
 
 
@@ -107,12 +121,7 @@ def run_C17(res, tier, seed, t_end):
             norm = lambda x: sorted(x, key=repr) if isinstance(x, (set, list)) and c[0] in ('SMEMBERS',) else (dict(x) if isinstance(x, dict) else x)   # noqa
             aa = a if not isinstance(a, (set,)) else sorted(a)
             bb = b if not isinstance(b, (set,)) else sorted(b)
-            if isinstance(aa, dict):
-                aa = {deep_decode(k): deep_decode(v) for k, v in aa.items()}
-                ok = aa == bb
-            else:
-                ok = deep_decode(list(aa) if isinstance(aa, (list, tuple)) else aa) == (list(bb) if isinstance(bb, (list, tuple)) else bb) \
-                    or _loose_eq(deep_decode(aa), bb)
+            ok = deep_decode(a) == plain(b) or (c[0] in ('ZRANGE', 'INCRBYFLOAT') and _loose_eq(deep_decode(a), plain(b)))
             if not ok:
                 res.findings.append(finding('C17', 'decode_deep', '%r: raw %r decoded client %r' % (c, a, b)))
                 return
